@@ -146,6 +146,9 @@ def main(pid, tier):
         opts = " ".join(a for a in f["args"][4:] if not a.startswith("/"))
         if f["rc"] != 0 or f["timeout"]:
             failed_runs += 1
+            expected_cli_error = "--isolate flag requires" in f["stderr"]
+            if not (f["panicked"] or f["timeout"] or expected_cli_error):
+                chk.violation(f"{pid}/group-failed opts={opts}", "`group` exited with an error: " + f["stderr"][-250:], f)
             if f["panicked"] or f["timeout"]:
                 cls = "max-suffix-size-exceeds-file-length" if (c.get("max_suffix") or 0) > 60000 else "other"
                 chk.violation(f"{pid}/no-report class={cls} opts={opts}", "`group` panicked / aborted / hung instead of writing a report: " + f["stderr"][-250:], f)
